@@ -576,7 +576,8 @@ LEVEL_TEXT = ('Exploration by runtime monitoring: every evaluate_emission / comp
               'thermal-integral reference (own Gauss-Legendre nodes, CODATA Planck function) to 1e-9, widened only by '
               'the derived exp(-10) licence when the oracle\'s own optical depths show a clamp is possible; isothermal '
               'identity, coldest/hottest bounds, partial_model agreement and the direct-image scaling are checked on the '
-              'same executions. Kernels run under NUMBA_BOUNDSCHECK=1, a slice is repeated with the JIT disabled.')
+              'same executions. Kernels run under NUMBA_BOUNDSCHECK=1, a slice is repeated with the JIT disabled.'
+              ' Results the caller keeps and work arrays it re-uses are followed by an ownership ledger (vmon/own.py).')
 LEVEL_NOTE = ('Trusted: refmodel emission integral (self-tested on an isothermal slab each run); sigma per contribution taken '
               'as given (C03/C04/C19); k-table emission is covered by C20.')
 TECHNIQUE = 'call taps on evaluate_emission/compute_final_flux + numba bounds-check sanitizer + independent thermal-integral reference model'
